@@ -242,6 +242,12 @@ func resShape(m *msggen.Message) string {
 	if m.Status == 206 {
 		return "partial-content-" + enc
 	}
+	switch m.Spec.Encoding {
+	case "x-gzip":
+		return "x-gzip"
+	case "deflate-zlib":
+		return "zlib-deflate"
+	}
 	if m.Encoding == "GZIP" {
 		return enc
 	}
@@ -717,7 +723,7 @@ func maxBody() int {
 }
 
 func gen(t *rapid.T) Case {
-	o := msggen.Options{MaxBody: maxBody(), Forms: true, BadForms: true}
+	o := msggen.Options{MaxBody: maxBody(), Forms: true, BadForms: true, RawQuery: true, Reasons: true, MoreCodings: true}
 	c := Case{Req: msggen.DrawRequest(t, o)}
 	c.Res = msggen.DrawResponse(t, o, c.Req.Method)
 	c.Post, c.Body = msggen.DrawHarOpt(t, "post"), msggen.DrawHarOpt(t, "body")
@@ -758,8 +764,16 @@ func nonUTF8(c Case) bool {
 	return (c.Req.Body.Kind == "binary" && c.Req.Body.Size > 0) || (c.Res.Body.Kind == "binary" && c.Res.Body.Size > 0)
 }
 
+func compressedCoding(e string) bool {
+	switch e {
+	case "gzip", "deflate", "GZIP", "x-gzip", "deflate-zlib":
+		return true
+	}
+	return false
+}
+
 func nontrivial(c Case) bool {
-	compressed := c.Res.Encoding == "gzip" || c.Res.Encoding == "deflate" || c.Res.Encoding == "GZIP"
+	compressed := compressedCoding(c.Res.Encoding)
 	opt := func(o msggen.HarOpt) bool { return o.Mode == "optin" || o.Mode == "optout" }
 	return (c.Req.Framing == "chunked") || compressed || nonUTF8(c) || c.Req.Body.Kind == "multipart" || opt(c.Post) || opt(c.Body)
 }
@@ -775,7 +789,7 @@ func classes(c Case) []string {
 	if c.Res.Encoding != "" {
 		cl = append(cl, "res-encoding-"+c.Res.Encoding)
 	}
-	if c.Res.Encoding == "gzip" || c.Res.Encoding == "deflate" || c.Res.Encoding == "GZIP" {
+	if compressedCoding(c.Res.Encoding) {
 		cl = append(cl, "compressed-response")
 		if c.Res.Framing == "chunked" {
 			cl = append(cl, "compressed-chunked-response")
@@ -801,6 +815,21 @@ func classes(c Case) []string {
 	}
 	if len(c.Req.Query) > 0 {
 		cl = append(cl, "query")
+	}
+	for _, q := range c.Req.Query {
+		if q.Raw != "" && !q.Bad {
+			cl = append(cl, "query-value-with-equals-sign")
+			break
+		}
+	}
+	for _, q := range c.Req.Query {
+		if q.Bad {
+			cl = append(cl, "query-pair-rejected-by-net-url")
+			break
+		}
+	}
+	if c.Res.CustomReason {
+		cl = append(cl, "custom-reason-phrase")
 	}
 	if len(c.Req.Cookies) > 0 {
 		cl = append(cl, "request-cookies")
@@ -872,7 +901,7 @@ var propEntry = &kit.Prop[Case]{
 	Gates: map[string]float64{
 		"nontrivial": 0.6, "chunked-request": 0.1, "chunked-urlencoded": 0.01, "compressed-response": 0.15, "compressed-chunked-response": 0.03,
 		"non-utf8": 0.2, "non-utf8-param": 0.03, "req-body-multipart": 0.05, "req-body-form": 0.05, "post-optin": 0.08, "body-optout": 0.08,
-		"query": 0.3, "request-cookies": 0.15, "response-cookies": 0.15, "redirect": 0.08, "through-export-handler": 0.3, "option-history": 0.3, "option-overridden": 0.12, "stale-content-length": 0.02, "stale-host": 0.08, "stale-transfer-encoding": 0.02, "built-response": 0.08, "unparseable-form-captured": 0.02, "built-response-http10": 0.004,
+		"query": 0.3, "request-cookies": 0.15, "response-cookies": 0.15, "redirect": 0.08, "through-export-handler": 0.3, "option-history": 0.3, "option-overridden": 0.12, "stale-content-length": 0.02, "stale-host": 0.08, "stale-transfer-encoding": 0.02, "built-response": 0.08, "unparseable-form-captured": 0.02, "query-value-with-equals-sign": 0.05, "query-pair-rejected-by-net-url": 0.05, "built-response-http10": 0.004,
 	},
 }
 
